@@ -233,6 +233,17 @@ class CFG:
                 if r is not None:
                     out |= frozenset(r)
                     continue
+            # a class-level constant naming the classes: except self._REPORTED: ...
+            if name and name.startswith('self.') and name.count('.') == 1 and depth < 3 and \
+                    isinstance(getattr(self.fn, '_parent', None), ast.ClassDef):
+                value = None
+                for st in self.fn._parent.body:
+                    if isinstance(st, ast.Assign) and any(isinstance(t, ast.Name) and t.id == name[5:]
+                                                          for t in st.targets):
+                        value = st.value
+                if value is not None:
+                    out |= self._handler_atoms(value, depth + 1)
+                    continue
             # a module-level constant naming the classes: _REPORTED = (Exception, SystemExit)
             mod = getattr(self.fn, '_module', None)
             if mod is not None and name and '.' not in name and depth < 3:
